@@ -743,6 +743,179 @@ theorem apply_chain (ord : Order) (links : Rule → Bool) (script : Script) (rul
   | notFound => simp [applyCheck, hv, linkedB, pipeCheck, lastOutcome]
   | outOfFuel => simp [applyCheck, hv, linkedB, pipeCheck, lastOutcome]
 
+/-! ## C15.4b served whenever a chain exists: a `Failed` needs a reason -/
+
+theorem lastOutcome_none (script : Script) : ∀ (tr : List Invocation) (i : Nat),
+    lastOutcome script i tr = none → tr = []
+  | [], _, _ => rfl
+  | [_], _, h => by simp [lastOutcome] at h
+  | _ :: t :: ts, i, h => by
+    simp only [lastOutcome] at h
+    exact absurd (lastOutcome_none script (t :: ts) (i + 1) h) (by simp)
+
+/-- how the inner loop may end when every rule of the chain has a hook, in terms of the runs `tr`
+it made and the outcome `lo` of the last of them -/
+def ServedEnd (desired : Ver) (p : Path) (tr : List Invocation) : PathEnd → List Obj → Option HookOut → Prop
+  | .done, o, lo => lo = some (.resp "" o) ∧ extractVersions o = [desired]
+  | .exhausted, _, lo => tr.map (·.rule) = p ∧
+      ∀ out, lo.bind HookOut.okOut = some out → extractVersions out ≠ [desired]
+  | .ret _, _, lo => lo ≠ none ∧ lo.bind HookOut.okOut = none
+
+/-- The inner loop when every rule of the chain is registered by a hook: it stops early only at a
+run that did not succeed (or at objects of exactly the desired version); otherwise it walks the
+whole chain. -/
+theorem runPath_served (links : Rule → Bool) (script : Script) (desired : Ver) :
+    ∀ (p : Path) (_ : ∀ r ∈ p, links r = true) (objs : List Obj) (inv0 : List Invocation),
+      ∃ tr, (runPath links script desired p objs inv0).2.2 = inv0 ++ tr ∧
+        ServedEnd desired p tr (runPath links script desired p objs inv0).1
+          (runPath links script desired p objs inv0).2.1 (lastOutcome script inv0.length tr) := by
+  intro p
+  induction p with
+  | nil =>
+    intro _ objs inv0
+    exact ⟨[], by simp [runPath], by simp [runPath, ServedEnd, lastOutcome]⟩
+  | cons r rs ih =>
+    intro hlk objs inv0
+    have hl : links r = true := hlk r (by simp)
+    have hrs : ∀ r' ∈ rs, links r' = true := fun r' h => hlk r' (by simp [h])
+    simp only [runPath, hl, Bool.not_true, Bool.false_eq_true, if_false]
+    cases hs : script inv0.length r objs with
+    | exitFail =>
+      exact ⟨[⟨r, objs⟩], rfl, by simp [ServedEnd, lastOutcome, hs, HookOut.okOut]⟩
+    | noResponse =>
+      exact ⟨[⟨r, objs⟩], rfl, by simp [ServedEnd, lastOutcome, hs, HookOut.okOut]⟩
+    | resp msg out =>
+      by_cases hm : msg = ""
+      · subst hm
+        simp only [ne_eq, not_true_eq_false, if_false]
+        by_cases hd : extractVersions out = [desired]
+        · simp only [hd, if_true]
+          exact ⟨[⟨r, objs⟩], rfl, by simp [ServedEnd, lastOutcome, hs, hd]⟩
+        · simp only [hd, if_false]
+          obtain ⟨tr, h1, h2⟩ := ih hrs out (inv0 ++ [⟨r, objs⟩])
+          refine ⟨⟨r, objs⟩ :: tr, by simp [h1], ?_⟩
+          simp only [List.length_append, List.length_cons, List.length_nil] at h2
+          rw [lastOutcome_cons]
+          generalize runPath links script desired rs out (inv0 ++ [⟨r, objs⟩]) = res at h2
+          obtain ⟨e, o, inv⟩ := res
+          simp only at h2 ⊢
+          by_cases htr : tr = []
+          · subst htr
+            simp only [if_true, hs]
+            cases e with
+            | done => simp [ServedEnd, lastOutcome] at h2
+            | ret x => simp [ServedEnd, lastOutcome] at h2
+            | exhausted =>
+              simp only [ServedEnd, List.map_nil] at h2
+              refine ⟨by simp [← h2.1], ?_⟩
+              intro out' ho
+              simp only [Option.bind_some, HookOut.okOut, if_true, Option.some.injEq] at ho
+              subst ho
+              exact hd
+          · simp only [htr, if_false]
+            cases e with
+            | done => exact h2
+            | ret x => exact h2
+            | exhausted => exact ⟨by simp [h2.1], h2.2⟩
+      · simp only [ne_eq, hm, not_false_eq_true, if_true]
+        exact ⟨[⟨r, objs⟩], rfl, by simp [ServedEnd, lastOutcome, hs, HookOut.okOut, hm]⟩
+
+theorem Coherent.subset {U V : List Ver} (hU : Coherent U) (h : ∀ x ∈ V, x ∈ U) : Coherent V :=
+  fun x hx y hy e => hU x (h x hx) y (h y hy) e
+
+/-- `servedCheck` for any chain handed to the handler whose rules all have a hook -/
+theorem served_path (links : Rule → Bool) (script : Script) (rules : List Rule) (desired a : Ver)
+    (objs : List Obj) (p : Path) (hv : extractVersions objs = [a])
+    (hc : IsChain Matched rules a desired p) :
+    servedCheck rules links desired objs script (runPath links script desired p objs []).2.2
+      (replyOf objs.length (runPath links script desired p objs [])) = none := by
+  by_cases hall : rules.all links = true
+  · have hlk : ∀ r ∈ p, links r = true := fun r hr => (List.all_eq_true.1 hall) r (hc.declared r hr)
+    obtain ⟨tr, h1, h2⟩ := runPath_served links script desired p hlk objs []
+    simp only [List.nil_append, List.length_nil] at h1 h2
+    generalize runPath links script desired p objs [] = res at *
+    obtain ⟨e, o, inv⟩ := res
+    simp only at h1 h2
+    subst h1
+    cases e with
+    | done =>
+      obtain ⟨hlo, hver⟩ := h2
+      by_cases hlen : objs.length = o.length
+      · simp [replyOf, review, hlen, servedCheck]
+      · have hlen' : ¬ o.length = objs.length := fun h => hlen h.symm
+        simp [replyOf, review, hlen, servedCheck, hv, hall, hlo, HookOut.okOut, hver, hlen']
+    | exhausted =>
+      obtain ⟨hw, hne⟩ := h2
+      have hends : versionsMatched (endOf a (inv.map (·.rule))) desired = true := by
+        rw [hw]; exact hc.ends
+      simp only [replyOf, review, servedCheck, hv, hall, Bool.not_true, Bool.false_eq_true, if_false]
+      split
+      · rfl
+      · cases hlo : lastOutcome script 0 inv with
+        | none =>
+          have := lastOutcome_none script inv 0 hlo
+          subst this
+          exact absurd hw.symm hc.nonempty
+        | some x =>
+          simp only
+          cases hok : x.okOut with
+          | none => rfl
+          | some out =>
+            have := hne out (by simp [hlo, hok])
+            simp [this]
+    | ret x =>
+      obtain ⟨hnn, hno⟩ := h2
+      cases hlo : lastOutcome script 0 inv with
+      | none => exact absurd hlo hnn
+      | some y =>
+        have hy : y.okOut = none := by simpa [hlo] using hno
+        simp only [servedCheck, hv, hlo, hy]
+        split <;> (try rfl)
+        split <;> (try rfl)
+        split <;> rfl
+  · simp only [servedCheck, hv, hall, Bool.not_false, if_true]
+    split <;> (try rfl)
+    split <;> rfl
+
+/-- **C15.4b (`apply_served`).** "… is served by a sequence of declared rules whenever such a
+sequence exists": end to end — search on the stateful cache after any history, then the application,
+every script of hook outcomes, every iteration order, objects of one source version `a` — the answer
+is `Failed` only for a reason (`servedCheck`): a run that did not succeed; objects that are not as
+requested after the chain was walked to the desired version; or no declared chain from `a` to the
+desired version. In particular, when every declared rule has a hook, a chain exists and every hook
+succeeds with the requested objects, the answer is not `Failed`. Scope of `chain_complete`
+(coherent spellings; `a` and the desired version differ — otherwise `servedCheck` demands nothing). -/
+theorem apply_served (ord : Order) (links : Rule → Bool) (script : Script) (rules history : List Rule)
+    (desired a : Ver) (objs : List Obj) (hv : extractVersions objs = [a])
+    (hU : Coherent (a :: desired :: (history.map (·.src) ++ versionsOf rules))) :
+    servedCheck rules links desired objs script
+      (convert ord links script (afterQueries ord (Chain.ofRules rules) history) desired objs).2
+      (convert ord links script (afterQueries ord (Chain.ofRules rules) history) desired objs).1 = none := by
+  have hU' : Coherent (a :: desired :: versionsOf rules) :=
+    Coherent.subset hU (by intro x hx; simp at hx ⊢; rcases hx with h | h | h <;> simp [h])
+  rw [convert_eq ord links script _ desired a objs hv]
+  have hnone : ∀ m, (find ord (afterQueries ord (Chain.ofRules rules) history) ⟨a, desired⟩).2 ≠ .found m →
+      (∀ p, (find ord (afterQueries ord (Chain.ofRules rules) history) ⟨a, desired⟩).2 ≠ .found p) →
+      servedCheck rules links desired objs script [] (.failed .notSuccessful) = none := by
+    intro _ _ hnf
+    simp only [servedCheck, hv, lastOutcome]
+    split
+    · rfl
+    · rename_i hab
+      split
+      · rfl
+      · cases hdec : chainExistsDec rules a desired with
+        | false => rfl
+        | true =>
+          obtain ⟨p, hp⟩ := chain_complete ord rules history a desired hU hab
+            ((chainExistsDec_iff rules a desired hU' hab).1 hdec)
+          exact absurd hp (hnf p)
+  cases hf : (find ord (afterQueries ord (Chain.ofRules rules) history) ⟨a, desired⟩).2 with
+  | found p =>
+    exact served_path links script rules desired a objs p hv (chain_sound ord rules history a desired p hU' hf)
+  | notFound => exact hnone [] (by simp [hf]) (by simp [hf])
+  | outOfFuel => exact hnone [] (by simp [hf]) (by simp [hf])
+
 /-! ## non-vacuity and regression witnesses -/
 
 section Examples
@@ -782,6 +955,33 @@ example : convert Order.ident (fun _ => true)
 example : convert Order.ident (fun _ => true) (fun _ _ _ => .resp "boom" [])
     (Chain.ofRules twoStep) (V "g.io/v3") objsV1
     = (.failed (.own "boom"), [⟨R "v1" "v2", objsV1⟩]) := by decide
+
+private def okScript : Script :=
+  fun i _ inp => .resp "" (inp.map fun o => ⟨o.id, if i = 0 then V "g.io/v2" else V "g.io/v3"⟩)
+
+/-- `apply_served` is not vacuous: `servedCheck` rejects a `Failed` that has no reason. A hook
+controller that keeps only the links of the last of two bindings of one CRD (`v1→v2` declared in
+`up`, `g.io/v2→v3` in the binding after it: the link of `v1→v2` is lost) answers `Failed`
+("no hook found") without running anything, although a chain of declared rules exists and every
+hook would succeed … -/
+theorem split_bindings_witness :
+    convert Order.ident (fun r => r == R "g.io/v2" "v3") okScript (Chain.ofRules twoStep) (V "g.io/v3") objsV1
+      = (.failed .noHook, []) ∧
+    servedCheck twoStep (fun _ => true) (V "g.io/v3") objsV1 okScript [] (.failed .noHook)
+      = some "a-chain-of-declared-rules-exists-but-no-hook-was-run" := by decide
+
+/-- … or, the other way round, after the first step has run -/
+example :
+    convert Order.ident (fun r => r == R "v1" "v2") okScript (Chain.ofRules twoStep) (V "g.io/v3") objsV1
+      = (.failed .noHook, [⟨R "v1" "v2", objsV1⟩]) ∧
+    servedCheck twoStep (fun _ => true) (V "g.io/v3") objsV1 okScript [⟨R "v1" "v2", objsV1⟩] (.failed .noHook)
+      = some "failed-before-the-end-of-the-chain-though-every-run-succeeded" := by decide
+
+/-- … while a `Failed` after a run that exits non-zero, and a `Failed` when no chain exists, are accepted -/
+example : servedCheck twoStep (fun _ => true) (V "g.io/v3") objsV1 (fun _ _ _ => .exitFail)
+    [⟨R "v1" "v2", objsV1⟩] (.failed .hookFailed) = none := by decide
+example : servedCheck twoStep (fun _ => true) (V "g.io/v0") objsV1 okScript [] (.failed .notSuccessful) = none := by
+  decide
 
 /-! ### the four repaired defects: the unrepaired variants violate the property -/
 
